@@ -27,7 +27,9 @@ typedef struct conn {
   stream_t c2s, s2c;
   int client_fd;
   int client_closed;
+  int serial; /* unique per connection */
 } conn_t;
+static int conn_serial;
 typedef struct kfd {
   int kind;
   int nonblock;
@@ -110,6 +112,10 @@ static long note(long ret, int err, uint64_t off, int eof) {
   return ret;
 }
 
+static long note_aux(long ret, int err) {
+  if (ret < 0) errno = err;
+  return ret;
+}
 void k_init(void) {
   memset(K, 0, sizeof K);
   K[0].kind = K[1].kind = K[2].kind = -1; /* real stdio: passthrough */
@@ -638,6 +644,7 @@ static int k_connect(int fd, const struct sockaddr* addr, socklen_t al) {
   init_stream(&c->s2c);
   c->client_fd = fd;
   c->client_closed = 0;
+  c->serial = ++conn_serial;
   k->pending = c;
   k->listener_fd = l;
   k->port = port;
@@ -682,12 +689,12 @@ static int k_accept(int fd, struct sockaddr* a, socklen_t* al) {
   K[nfd].tx = &c->s2c;
   th(0xACCE9700ull + nfd);
   TR("[%lu] t%d accept on fd %d -> fd %d (client fd %d)\n", g_steps, me, fd, nfd, c->client_fd);
-  return (int)note(nfd, 0, (uint64_t)c->client_fd, 0);
+  return (int)note(nfd, 0, (uint64_t)c->serial, 0);
 }
 static int k_close(int fd) {
   sim_sched_point(K_KERNEL);
   if (fd >= 0 && fd <= 2) return 0;
-  if (!kvalid(fd)) return (int)note(-1, EBADF, 0, 0);
+  if (!kvalid(fd)) return (int)note_aux(-1, EBADF);
   kfd_t* k = &K[fd];
   TR("[%lu] t%d close fd %d\n", g_steps, me, fd);
   if (k->kind == KF_TIMER) timer_interval = 0;
@@ -706,36 +713,36 @@ static int k_close(int fd) {
       k->backlog[i]->s2c.wclosed = 1;
     }
   memset(k, 0, sizeof *k);
-  return (int)note(0, 0, 0, 0);
+  return (int)note_aux(0, 0);
 }
 static int k_fcntl(int fd, int cmd, long val) {
   sim_sched_point(K_KERNEL);
-  if (!kvalid(fd)) return (int)note(-1, EBADF, 0, 0);
+  if (!kvalid(fd)) return (int)note_aux(-1, EBADF);
   switch (cmd) {
     case F_GETFL:
-      return (int)note((K[fd].kind == KF_PIPE_R ? O_RDONLY : K[fd].kind == KF_PIPE_W ? O_WRONLY : O_RDWR) | (K[fd].nonblock ? O_NONBLOCK : 0), 0, 0, 0);
+      return (int)note_aux((K[fd].kind == KF_PIPE_R ? O_RDONLY : K[fd].kind == KF_PIPE_W ? O_WRONLY : O_RDWR) | (K[fd].nonblock ? O_NONBLOCK : 0), 0);
     case F_SETFL:
       K[fd].nonblock = (val & O_NONBLOCK) != 0;
-      return (int)note(0, 0, 0, 0);
+      return (int)note_aux(0, 0);
     case F_GETFD:
     case F_SETFD:
-      return (int)note(0, 0, 0, 0);
+      return (int)note_aux(0, 0);
     default:
-      return (int)note(-1, EINVAL, 0, 0);
+      return (int)note_aux(-1, EINVAL);
   }
 }
 static int k_ioctl(int fd, unsigned long req, void* val) {
   sim_sched_point(K_KERNEL);
-  if (!kvalid(fd)) return (int)note(-1, EBADF, 0, 0);
+  if (!kvalid(fd)) return (int)note_aux(-1, EBADF);
   if (req == FIONBIO) {
     K[fd].nonblock = val && *(int*)val;
-    return (int)note(0, 0, 0, 0);
+    return (int)note_aux(0, 0);
   }
   if (req == FIONREAD) {
     if (val) *(int*)val = K[fd].rx ? K[fd].rx->len : 0;
-    return (int)note(0, 0, 0, 0);
+    return (int)note_aux(0, 0);
   }
-  return (int)note(-1, ENOTTY, 0, 0);
+  return (int)note_aux(-1, ENOTTY);
 }
 int __wrap_setsockopt(int fd, int lvl, int opt, const void* v, socklen_t l) {
   (void)lvl;
